@@ -273,8 +273,12 @@ def run(model: Model, rep: Report) -> None:
     r6.check("ifc==b'\\n':" in nsrc and "linebuf[-1:]==b'\\r'" in nsrc, site(nl), nl.qualname, "nextline consumes CR LF as one line end (the LF after a CR belongs to the line)", why="CR LF handling changed")
 
 
-def _png_filters(model: Model, rep: Report, png: FuncInfo) -> None:
-    r5 = rep.rule("C03-R5", "NORMFORM", "Paeth function equals PNG 6.6; each filter type reads the spec'd operands and reduces mod 256", 7)
+def png_filters_rule(model: Model, rep: Report, rid: str) -> None:
+    _png_filters(model, rep, model.func(U + "apply_png_predictor"), rid)
+
+
+def _png_filters(model: Model, rep: Report, png: FuncInfo, rid: str = "C03-R5") -> None:
+    r5 = rep.rule(rid, "NORMFORM", "Paeth function equals PNG 6.6; each filter type reads the spec'd operands and reduces mod 256", 7)
     pa = model.func(U + "paeth_predictor")
     se = SymEval(opaque_ok=True)
     se.calls = {"abs": lambda x: ("abs", x) if not (isinstance(x, Poly) and x.is_const()) else Poly.const(abs(x.const_value()))}
